@@ -69,6 +69,7 @@ func (cr *clRun) electedAtColdStart(addr string) {
 		return
 	}
 	cr.res.stat("cold_start_elections", 1)
+	cr.coldStarts++
 	for _, s := range cr.snaps {
 		if s.deleted || s.lost || s.holders[addr] {
 			continue
@@ -210,8 +211,8 @@ func (cr *clRun) judgeAdmin(a *adminOp, op Op, pre map[string]string, idleBefore
 			return
 		}
 		cr.mutations++
-		if a.acquired && countMode(a.list, types.RW) != rf {
-			cr.viol("C13", "snapshot-accepted-without-all-rw", "volume snapshot %s succeeded although %d of RF=%d replicas were RW when it took effect: %v", a.arg, countMode(a.list, types.RW), rf, a.list)
+		if a.acquired && countMode(a.lastList, types.RW) != rf {
+			cr.viol("C13", "snapshot-accepted-without-all-rw", "volume snapshot %s succeeded although %d of RF=%d replicas were RW when it took effect: %v", a.arg, countMode(a.lastList, types.RW), rf, a.lastList)
 			return
 		}
 		rec := &snapRec{name: a.arg, disk: "volume-snap-" + a.arg + ".img", idle: idleBefore && cr.idleIO(), takenAt: cr.w.Now()}
@@ -636,6 +637,9 @@ func (cr *clRun) deepChecks(when string, promoted string) {
 			if w := cr.unalignedWriteWhileWO(rn.addr, bad); w != nil {
 				clause += "/unaligned-write-during-rebuild"
 				why += fmt.Sprintf(" [block %d was partially written by op %d while %s was WO]", bad/8, w.idx, rn.name)
+			} else if w := cr.woMajorityLoss(bad); w != nil {
+				clause += "/write-majority-included-rebuilding-replica"
+				why += cr.d20Note(w)
 			}
 			cr.viol(prop("C02"), clause, "%s: replica %s: %s", when, rn.name, why)
 			return
